@@ -38,6 +38,11 @@ def configs(tier, seed):
                 cm = dict(cc)
                 cm.update(name=cc["name"] + "-metadata", exp_meta=True)
                 out.append(cm)
+                # the capture starts mid-stream: the first packet of the 4-tuple travels server -> client (a stray record), the connection
+                # under test follows; the endpoint roles must still come out by port, for MAC, IP and port alike
+                cs = dict(cc)
+                cs.update(name=cc["name"] + "-server-first", server_first=True)
+                out.append(cs)
     seenq = set()
     for c in c02.configs(tier, seed):
         feat = c["name"].split("-", 1)[1]
@@ -123,6 +128,11 @@ def _run_tls(cfg):
         seg = cfg["seg_size"]
         seq = {False: 1000, True: 5000}
         k = 0
+        if cfg.get("server_first"):
+            stray = bytes([0x17, 3, 3, 0, 2, 0xAA, 0xBB])
+            sg = F.tcp_segment(_sym_port_bytes(ep.s_port), _sym_port_bytes(ep.c_port), F.u32(seq[True] - len(stray)), F.u32(0), 0x18, stray)
+            t = sym_int("t_stray", 0, (1 << 50))
+            frames.append((F.ethernet(ep.c_mac, ep.s_mac, ep.ipv == 6, F.ip_header(ep.ipv == 6, ep.s_ip, ep.c_ip, 6, len(sg)) + sg), t, True))
         for idx, it in enumerate(items):
             data = it.data
             for o in range(0, len(data), seg):
@@ -442,6 +452,10 @@ def _replay_e2e(cfg, inp):
         seg = cfg["seg_size"]
         pk, owners, k = [], [], 0
         seq = {False: 1000, True: 5000}
+        if cfg.get("server_first"):
+            stray = bytes([0x17, 3, 3, 0, 2, 0xAA, 0xBB])
+            pk.append((F.concrete_tcp_frame(ep.s_mac, ep.c_mac, ep.ipv == 6, ep.s_ip, ep.c_ip, ep.s_port, ep.c_port, seq[True] - len(stray), 0, 0x18, stray, 0),
+                       inp["t_stray"]))
         for idx, it in enumerate(items):
             data = bytes(it.data)
             for o in range(0, len(data), seg):
